@@ -1078,6 +1078,11 @@ class ExecMixin(object):
         if not ctx.spec:
             for i, rq in enumerate(c.requires):
                 g = self.spec_bool(rq, st, callee_ctx)
+                if rq in c.input_requires and ctx.contract is not None and getattr(ctx.contract, 'assume_input', False):
+                    # well-formedness of the input data: assumed at this call (listed in the evidence), not provable from state
+                    self.assumed_inputs.add('%s: %s' % (c.target, rq))
+                    st.assume(g)
+                    continue
                 self.emit(ctx, st, 'pre@call', '%s.%d' % (c.target.rsplit('.', 1)[-1], i), g,
                           note='%s requires %s' % (c.target, rq))
                 st.assume(g)
